@@ -167,9 +167,7 @@ def scenarios(tier):
 
 def run(prop, tier):
     descs = scenarios(tier)
-    ctx = multiprocessing.get_context("fork")
-    with ctx.Pool(min(16, os.cpu_count() or 4)) as pool:
-        results = pool.map(task, descs, chunksize=4)
+    results = common.pmap(task, descs, chunksize=4)
     errs = [r["engine_error"] for r in results if "engine_error" in r]
     if errs:
         raise common.EngineError("; ".join(errs[:2]))
